@@ -16,7 +16,7 @@ RULE = ("wallets from random secrets through all constructors x both networks x 
         "intervals {(0,0),(0,1),(7,8),(s,s+r),(2^31-3,2^31-1),(2^31-1,2^31)} inside [0,2^31), 0..40 rows; everything recomputed "
         "from the seed by the reference model; distinct = distinct (monitor, case) digests; a wallet is non-trivial when it "
         "has >=1 row or a non-zero account"
-        " EXTENSIONS: + listings of 255..1025 and 4097 rows (thorough 16385) with real keys, one listing of 2^15+600 rows in fast mode (thorough 2^17+600), results re-read after later requests and after the caller edited them, export_wallet / export_wasabi onto one path repeatedly, accounts equal to meaningful numbers, wallet listings of K+3 rows (thorough K-1 .. 2K+1) per harvested threshold K and purpose with rows around multiples of K decoded, capitalised spellings of the mnemonic, a command-line route compared with the reference wallet of the text as typed")
+        " EXTENSIONS: + listings of 255..1025 and 4097 rows (thorough 16385) with real keys, one listing of 2^15+600 rows in fast mode (thorough 2^17+600), results re-read after later requests and after the caller edited them, export_wallet / export_wasabi onto one path repeatedly, accounts equal to meaningful numbers, wallet listings of K+3 rows (thorough K-1 .. 2K+1) per harvested threshold K and purpose with rows around multiples of K decoded, capitalised spellings of the mnemonic, a command-line route compared with the reference wallet of the text as typed, passphrases equal to strings the same document prints elsewhere (row paths, field names) or to JSON syntax")
 LEVEL_TEXT = ("The dict returned by PaperWallet.generate(account, interval), the json() string and wasabi_json() of real "
               "wallets are checked by an offline checker against the reference model recomputed from the seed: account paths "
               "and SLIP-132 keys per purpose, one row per index in order, WIF/SEC/address of each row independently decoded, "
@@ -487,6 +487,13 @@ def gen_case(rnd, j):
         e = s + n
     case["start"], case["end"] = s, e
     case["default_json"] = rnd.random() < 0.08
+    if "passphrase" in case and rnd.random() < 0.3:
+        # a passphrase that EQUALS a string the same document holds elsewhere (a row's derivation path, an account path, a
+        # section or field name) or that is JSON syntax itself: renderings must keep the two apart
+        coin = 1 if case["testnet"] else 0
+        acct = case["account"] % H
+        own = ["m/%d'/%d'/%d'/0/%d" % (p_, coin, acct, s) for p_ in (44, 49, 84)] + ["m/%d'/%d'/%d'" % (p_, coin, acct) for p_ in (44, 49, 84)]
+        case["passphrase"] = rnd.choice(own + ["BIP84", "groups", "MASTER", "mnemonic", '"', '\\', '{"a": 1}', "null", "m", "[]", '", "'])
     return case
 
 
